@@ -18,7 +18,7 @@ func TestMain(m *testing.M) {
 	kit.Register("cursor", cursorOracle)
 	kit.Register("segment", segmentOracle)
 	kit.Describe("case = (source over {a,b,space,TAB,LF,CR,e-acute,[,],`,\\}, reader kind: source Reader or BlockReader over an increasing list of segments each inside one line with optional start/end trimming and padding 1..3, operation list: PeekLine, Peek, Advance(n<=remaining), AdvanceLine, Position (saved), SetPosition(saved), LineOffset, SetPadding, AdvanceAndSetPadding, Value, FindClosure (all options), SkipSpaces, SkipBlankLines, ReadRune, PrecendingCharacter, ResetPosition); oracle = flat cursor model (line index, start offset, remaining padding); every call must not panic and Position stays inside the source. Bounded-exhaustive part: all sources up to length 3 (quick) / 4 (thorough) over a 7-symbol alphabet x all sequences up to length 3 over 8 core actions x reader kinds. Segment arithmetic is checked as pure functions. non-trivial = the sequence crosses a line by Advance or restores a position on another line, on a source with >= 2 lines or a TAB; distinct by hash of the case",
-		"LineOffset is measured from the line head the reader defines (line start for Reader, segment start for BlockReader)", "BlockReader.Value is only compared for whole-line segments and ranges inside an unpadded line")
+		"LineOffset is measured from the line head the reader defines (line start for Reader, segment start for BlockReader)", "BlockReader.Value is compared for whole-line segments and for ranges inside one line (from the line start with part of its padding, or from a later byte without padding)")
 	kit.Main(m, "C18")
 }
 
@@ -376,8 +376,18 @@ func cursorOracle(c *kit.Case) error {
 				continue
 			}
 			s := m.segs[a[0]%len(m.segs)]
-			if a[1]%2 == 1 && s.Padding == 0 && s.Stop-s.Start >= 2 {
-				s = text.NewSegment(s.Start+(a[1]/2)%(s.Stop-s.Start-1), s.Stop)
+			// the segments whose own value is unambiguous: a whole line, and any range inside one line - from the
+			// line's start with part of the line's padding still in front (what Position returns while the
+			// padding is being consumed), or from a later byte without padding; ending at or before the line's end
+			n := s.Stop - s.Start
+			switch mode, v := a[1]%4, a[1]/4; {
+			case mode == 1 && n >= 2:
+				s = text.NewSegment(s.Start+1+v%(n-1), s.Stop)
+			case mode == 2 && s.Padding > 0:
+				s = text.NewSegmentPadding(s.Start, s.Stop, v%(s.Padding+1))
+			case mode == 3 && n >= 3:
+				o := 1 + v%(n-2)
+				s = text.NewSegment(s.Start+o, s.Stop-1-(v/7)%(n-o-1))
 			}
 			got := rd.Value(s)
 			if want := s.Value(src); !bytes.Equal(got, want) {
@@ -503,7 +513,7 @@ func drawOps(t *rapid.T, max int) string {
 		case "FC":
 			k = fmt.Sprintf("FC%d", rapid.IntRange(0, 15).Draw(t, "bits"))
 		case "V":
-			k = fmt.Sprintf("V%d,%d", rapid.IntRange(0, 9).Draw(t, "line"), rapid.IntRange(0, 9).Draw(t, "sub"))
+			k = fmt.Sprintf("V%d,%d", rapid.IntRange(0, 9).Draw(t, "line"), rapid.IntRange(0, 39).Draw(t, "sub"))
 		}
 		ops = append(ops, k)
 	}
